@@ -435,6 +435,26 @@ Definition sstep (s : sstate) (o : op) : sstate * out :=
     | Some (_, _, tx, l2) => (s, OutL (flat_map (strav o fl) (tx :: l2)))
     | None => (s, OutX)
     end
+  | OFind p nm pos =>
+    (* the children of p named nm: the last (0), the pos-th (pos > 0), the one -pos before the last *)
+    match focus p (lists s) with
+    | Some (_, _, tp, _) =>
+      let k := tkids tp in
+      let ms := if nm =? 0 then [] else matches nm 0 k in
+      let idx := if (pos =? 0)%Z then (match ms with [] => None | _ :: _ => Some (last ms 0) end)
+                 else if (0 <? pos)%Z then nth_error ms (Z.to_nat pos - 1)
+                 else nth_error (rev ms) (Z.to_nat (- pos)) in
+      (s, OutP (match idx with Some i => option_map tid (nth_error k i) | None => None end))
+    | None => (s, OutX)
+    end
+  | ONext x nm =>
+    (* the first node named nm from x on *)
+    match focus x (lists s) with
+    | Some (_, _, tx, l2) =>
+      (s, OutP (if nm =? 0 then None
+                else option_map tid (find (fun t => tname t =? nm) (tx :: l2))))
+    | None => (s, OutX)
+    end
   | OEnd => (mkS [] (scount s) (ids_st (lists s) ++ sfreed s), OutZ 0%Z)
   end.
 
